@@ -54,7 +54,9 @@ pub fn dispatch(ctx: &Ctx, rep: &mut Report) -> bool {
                     let real = super::real::load(&super::bcfmt::write(prog));
                     if let Ok(real) = real { let _ = super::lockstep::run(&real, prog, common::cap_for(&out) * 2); }
                     t5 = std::time::Instant::now();
-                    let _ = vo;
+                    println!("    {} refvm: steps={} capped={} status={:?}", name, vo.steps, vo.capped, vo.status);
+                } else if let Err(e) = &prog {
+                    println!("    {} altcc refuses: {}", name, e);
                 }
                 println!("{:28} refsem {:6} ms steps {:8} | real {:6} ms ok={} | altcc {:5} ms | refvm {:6} ms | lockstep {:6} ms", name, (t1 - t0).as_millis(), out.steps, (t2 - t1).as_millis(), pl.run.as_ref().map(|r| r.ok).unwrap_or(false), (t3 - t2).as_millis(), (t4 - t3).as_millis(), (t5 - t4).as_millis());
             }
